@@ -709,3 +709,35 @@ for _p in ("C16", "C20"):
 
 for _pid in ("C02", "C04", "C07", "C10"):
     REGISTRY[_pid]["run"] = with_decimal(REGISTRY[_pid]["run"], 150, 6000)
+
+
+def with_profile(inner, profile, quick, thorough, note):
+    """append another profile of the simulation stream (lockstep + predicate), merging the coverage numbers"""
+    def run(ctx):
+        inner(ctx)
+        keep = (ctx.evaluations, ctx.distinct_nontrivial, ctx.traces_validated, ctx.samples, ctx.matrix, ctx.distribution, ctx.rule, ctx.violations)
+        ctx.evaluations = ctx.distinct_nontrivial = ctx.traces_validated = 0
+        ctx.samples, ctx.matrix, ctx.violations = [], {}, []
+        results = simstream.run_stream(ctx.seed + 13, ctx.n(quick, thorough), profile, [ctx.pid])
+        absorb_sim(ctx, results, profile)
+        ev, dn, tv, samples, matrix, dist, rule, viol = keep
+        for ph, cell in ctx.matrix.items():
+            c0 = matrix.setdefault(ph, dict(executions=0, disagreements=0))
+            c0["executions"] += cell["executions"]
+            c0["disagreements"] += cell["disagreements"]
+            if "first" in cell:
+                c0.setdefault("first", cell["first"])
+        dist["profile_" + profile] = {k: v for k, v in ctx.distribution.items() if k in ("cases", "success", "failure", "on_used_object")}
+        ctx.evaluations += ev
+        ctx.distinct_nontrivial += dn
+        ctx.traces_validated += tv
+        ctx.samples = (samples + ctx.samples)[:3]
+        ctx.matrix, ctx.distribution = matrix, dist
+        ctx.violations = viol + ctx.violations
+        ctx.rule = rule + "; plus " + note
+    return run
+
+
+REGISTRY["C12"]["run"] = with_profile(REGISTRY["C12"]["run"], "rerun", 100, 4000,
+                                      "the same stream on USED objects only (every case observed after an earlier forward run or a backward run with "
+                                      "due times of the tail tasks, i.e. after helper tasks were added and removed)")
